@@ -96,8 +96,12 @@ func (e *Experiment) Execute(ctx context.Context, startGenome *genetics.Genome, 
 
 			if generation.Solved {
 				// stop further evaluation if already solved
-				neat.InfoLog(fmt.Sprintf(">>>>> The winner organism found in [%d] generation, fitness: %f <<<<<\n",
-					generationId, generation.Champion.Fitness))
+				if generation.Champion != nil {
+					neat.InfoLog(fmt.Sprintf(">>>>> The winner organism found in [%d] generation, fitness: %f <<<<<\n",
+						generationId, generation.Champion.Fitness))
+				} else {
+					neat.InfoLog(fmt.Sprintf(">>>>> The winner organism found in [%d] generation <<<<<\n", generationId))
+				}
 				break
 			}
 		}
